@@ -18,7 +18,7 @@ import (
 
 func TestMain(m *testing.M) { harness.Main(m) }
 
-const rule = "C19: the chains of C01 (internal/chains: reads, writes, upserts, soft deletes, raw SQL; records without nested association values) are run twice from two identically prepared SQLite databases behind the recording driver: once dry (Session{DryRun:true}, Config{DryRun:true} or db.ToSQL; with and without PrepareStmt), once for real; NowFunc is fixed. non-trivial = a write finisher or at least 2 bound values; distinct = dry mode + canonical rendering of chain and values"
+const rule = "C19: the chains of C01 (internal/chains: reads, writes, upserts, soft deletes, raw SQL; records without nested association values) are run twice from two identically prepared SQLite databases behind the recording driver: once dry (Session{DryRun:true}, Config{DryRun:true} or db.ToSQL; with and without PrepareStmt and SkipDefaultTransaction; including batched creates, Save, FirstOrInit/FirstOrCreate, updates under Session{SkipHooks} and models with integer auto-time columns), once for real; NowFunc is fixed. non-trivial = a write finisher or at least 2 bound values; distinct = dry mode + canonical rendering of chain and values"
 
 func fixedNow() time.Time { return testdb.FixedNow }
 
@@ -29,12 +29,18 @@ type sample struct {
 	Vars  string `json:"vars"`
 }
 
-func open(c *chains.Chain, dryRun, prepare bool) *testdb.DB {
+func open(c *chains.Chain, dryRun, prepare, skipTx bool) *testdb.DB {
 	d := testdb.Open(testdb.Options{
-		Config:      gorm.Config{NowFunc: fixedNow, DryRun: dryRun, PrepareStmt: prepare},
+		Config: gorm.Config{NowFunc: fixedNow, DryRun: dryRun, PrepareStmt: prepare, SkipDefaultTransaction: skipTx,
+			CreateBatchSize: c.ConfigBatchSize()},
 		NoReturning: c.CreatesFromMap(), // see C01: scanning RETURNING rows into []map fails after the statement was sent
 	})
 	return d
+}
+
+type built struct {
+	sql  string
+	vars []interface{}
 }
 
 // driverCalls keeps the events the property speaks about.
@@ -60,34 +66,48 @@ func logOf(evs []recdrv.Event) string {
 	return s
 }
 
-func check(rt *rapid.T, c *chains.Chain, mode string, prepare bool) {
+func check(rt *rapid.T, c *chains.Chain, mode string, prepare, skipTx bool) {
 	desc := mode
 	if prepare {
 		desc += "+prepare"
 	}
+	if skipTx {
+		desc += "+skiptx"
+	}
 	desc += " " + c.String()
 	evid.Journal(desc)
 
-	a := open(c, mode == "config", prepare)
+	a := open(c, mode == "config", prepare, skipTx)
 	defer a.Close()
-	b := open(c, false, prepare)
+	b := open(c, false, prepare, skipTx)
 	defer b.Close()
 	for _, d := range []*testdb.DB{a, b} {
 		if err := chains.Prepare(d.SQL); err != nil {
 			rt.Fatalf("harness: cannot prepare the database: %v", err)
 		}
 	}
+	// A batched create runs every batch on a statement of its own and the handle it returns
+	// exposes none of them: the statements a dry run builds are observed right after the
+	// executing callback of the Create pipeline instead.
+	var caps []built
+	if err := a.Callback().Create().After("gorm:create").Register("verif:capture", func(tx *gorm.DB) {
+		if tx.DryRun {
+			caps = append(caps, built{sql: tx.Statement.SQL.String(), vars: append([]interface{}(nil), tx.Statement.Vars...)})
+		}
+	}); err != nil {
+		rt.Fatalf("harness: %v", err)
+	}
+	plan := c.Plan(chains.Mode{LiteralLimit: true, Now: fixedNow()})
 
 	// ---- dry run on A
 	a.Rec.Reset()
 	var (
-		dryTx  *gorm.DB
-		toSQL  string
-		dryErr error
+		dryTx *gorm.DB
+		toSQL string
 	)
 	switch mode {
 	case "session":
-		dryTx = c.Apply(a.Session(&gorm.Session{DryRun: true}))
+		dryTx = c.Apply(a.Session(&gorm.Session{DryRun: true, SkipDefaultTransaction: skipTx}))
 	case "config":
 		dryTx = c.Apply(a.DB)
 	default:
@@ -96,10 +116,13 @@ func check(rt *rapid.T, c *chains.Chain, mode string, prepare bool) {
 			return dryTx
 		})
 	}
-	dryErr = dryTx.Error
-	drySQL := dryTx.Statement.SQL.String()
-	dryVars := append([]interface{}(nil), dryTx.Statement.Vars...)
-	dryNorm := chains.NormAll(dryVars)
+	dryErr := dryTx.Error
+	exposed := built{sql: dryTx.Statement.SQL.String(), vars: append([]interface{}(nil), dryTx.Statement.Vars...)}
+	dry := []built{exposed}
+	dryAt := plan.DryAt[len(plan.DryAt)-1:]
+	if plan.Hidden {
+		dry, dryAt = caps, plan.DryAt
+	}
 	dryLog := driverCalls(a.Rec.Events())
 
 	info := c.Describe(true)
@@ -107,8 +130,19 @@ func check(rt *rapid.T, c *chains.Chain, mode string, prepare bool) {
 	if prepare {
 		classes = append(classes, "prepare-stmt")
 	}
-	nt := c.Write() || len(dryVars) >= 2
-	evid.Case(desc, nt, sample{Mode: mode, Chain: c.String(), SQL: drySQL, Vars: chains.Render(dryNorm)}, classes...)
+	if skipTx {
+		classes = append(classes, "skip-default-transaction")
+	}
+	nVars := 0
+	smp := sample{Mode: mode, Chain: c.String()}
+	for i, st := range dry {
+		nVars += len(st.vars)
+		if i == 0 {
+			smp.SQL, smp.Vars = st.sql, chains.Render(chains.NormAll(st.vars))
+		}
+	}
+	nt := c.Write() || nVars >= 2
+	evid.Case(desc, nt, smp, classes...)
 
 	// ---- real run on B
 	b.Rec.Reset()
@@ -117,8 +151,12 @@ func check(rt *rapid.T, c *chains.Chain, mode string, prepare bool) {
 	stmts := b.Rec.Statements()
 
 	fail := func(format string, args ...interface{}) {
-		rt.Fatalf("C19 violated: %s\n  case: %s\n  dry statement: %s\n    %s\n  driver log of the dry run:%s\n  driver log of the real run:%s",
-			fmt.Sprintf(format, args...), desc, drySQL, chains.Render(dryNorm), logOf(dryLog), logOf(realLog))
+		shown := ""
+		for _, st := range dry {
+			shown += "\n      " + st.sql + "\n        " + chains.Render(chains.NormAll(st.vars))
+		}
+		rt.Fatalf("C19 violated: %s\n  case: %s\n  dry statement(s):%s\n  driver log of the dry run:%s\n  driver log of the real run:%s",
+			fmt.Sprintf(format, args...), desc, shown, logOf(dryLog), logOf(realLog))
 	}
 
 	// the dry run sends nothing
@@ -134,6 +172,9 @@ func check(rt *rapid.T, c *chains.Chain, mode string, prepare bool) {
 	if mode == "tosql" && len(dryLog) > 0 {
 		fail("ToSQL made %d driver call(s)", len(dryLog))
 	}
+	if skipTx && len(dryLog) > 0 {
+		fail("a dry run with SkipDefaultTransaction made %d driver call(s)", len(dryLog))
+	}
 	if !c.Write() && len(dryLog) > 0 {
 		fail("a dry read made %d driver call(s)", len(dryLog))
 	}
@@ -146,33 +187,44 @@ func check(rt *rapid.T, c *chains.Chain, mode string, prepare bool) {
 	if a.Rec.OpenTx() != 0 {
 		fail("the dry run left a transaction open")
 	}
-	if drySQL == "" {
-		fail("the dry run exposes no statement")
+	if len(dry) != len(dryAt) {
+		fail("the dry run built %d statement(s), the operation consists of %d", len(dry), len(dryAt))
+	}
+	if plan.Hidden && exposed.sql != "" && exposed.sql != dry[len(dry)-1].sql {
+		fail("the handle returned by the batched dry run exposes a statement that is none of its batches: %q", exposed.sql)
 	}
 
 	// the real run sends exactly what the dry run showed
 	if err := realTx.Error; err != nil && !(c.MayNotFind() && errors.Is(err, gorm.ErrRecordNotFound)) {
 		fail("the real run failed: %v", err)
 	}
-	if len(stmts) == 0 {
-		fail("the real run sent no statement")
+	if len(stmts) < len(plan.Real) || len(stmts) > len(plan.Real)+1 || (len(stmts) > len(plan.Real) && !plan.ExtraReal) {
+		fail("the real run sent %d statement(s), the operation consists of %d", len(stmts), len(plan.Real))
 	}
-	first := stmts[0]
-	if first.Text != drySQL {
-		fail("the real run's main statement differs from the dry run's text:\n    real: %s", first.Text)
-	}
-	args := make([]interface{}, len(first.Args))
-	for i, x := range first.Args {
-		args[i] = chains.Norm(x.Value)
-	}
-	if i := chains.SameAll(dryNorm, args); i >= 0 {
-		fail("the real run's arguments differ from the dry run's values at index %d:\n    real: %s", i, chains.Render(args))
-	}
-	if len(stmts) != 1 {
-		fail("the real run sent %d statements where the dry run shows one", len(stmts))
+	for i, st := range dry {
+		if st.sql == "" {
+			fail("the dry run exposes no statement")
+		}
+		real := stmts[dryAt[i]]
+		if real.Text != st.sql {
+			fail("statement %d of the real run differs from the dry run's text:\n    real: %s", dryAt[i]+1, real.Text)
+		}
+		args := make([]interface{}, len(real.Args))
+		for k, x := range real.Args {
+			args[k] = chains.Norm(x.Value)
+		}
+		if k := chains.SameAll(chains.NormAll(st.vars), args); k >= 0 {
+			fail("statement %d of the real run: arguments differ from the dry run's values at index %d:\n    real: %s", dryAt[i]+1, k, chains.Render(args))
+		}
 	}
 	if mode == "tosql" {
-		if want := a.Dialector.Explain(first.Text, dryVars...); toSQL != want {
+		want := ""
+		if !plan.Hidden {
+			want = a.Dialector.Explain(stmts[dryAt[0]].Text, exposed.vars...)
+		} else if exposed.sql != "" {
+			want = a.Dialector.Explain(exposed.sql, exposed.vars...)
+		}
+		if toSQL != want {
 			fail("ToSQL returned %q, Explain of the executed statement is %q", toSQL, want)
 		}
 	}
@@ -191,6 +243,7 @@ func TestC19(t *testing.T) {
 		c := chains.Gen(rt, cfg)
 		mode := rapid.SampledFrom([]string{"session", "config", "tosql"}).Draw(rt, "mode")
 		prepare := rapid.IntRange(0, 4).Draw(rt, "prepare") == 4
-		check(rt, c, mode, prepare)
+		skipTx := mode != "tosql" && rapid.Bool().Draw(rt, "skiptx")
+		check(rt, c, mode, prepare, skipTx)
 	})
 }
